@@ -174,9 +174,47 @@ def r_tag(sh, rep):
     rep.touched(GB, "get_constr_index_variant")
     src = sh.nsrc(GB, g["body"])
     rep.check(".enumerate()" in src and "DecoratorKind::Tag" in src, "R12-TAG", "get_constr_index_variant#tag-or-position", sh.loc(GB, g), "get_constr_index_variant must use @tag, else the enumerate position")
-    els = [n for n in walk(g["body"]) if n["k"] == "If" and "else" in n]
-    ok = els and re.search(r"\((index|ix|i),dt\)", sh.nsrc(GB, els[0]["else"])) is not None and "(*tag,dt)" in sh.nsrc(GB, els[0]["then"])
-    rep.check(bool(ok), "R12-TAG", "get_constr_index_variant#arms", sh.loc(GB, g), "with a tag the index is the tag, otherwise the position")
+    # with a tag the index is the tag, otherwise the declaration position — read structurally: names bound to the position
+    # come from a tuple pattern over an `.enumerate()` chain, names bound to the tag from a `Some(..)` pattern over an
+    # expression that extracts DecoratorKind::Tag; the function must build a result tuple from each
+    pos_names, tag_names, tag_locals = set(), set(), set()
+    for n in walk(g["body"]):
+        if n["k"] == "Local" and n.get("init") is not None and n["pat"].get("k") == "Ident" and "DecoratorKind::Tag" in sh.nsrc(GB, n["init"]):
+            tag_locals.add(n["pat"]["name"])
+    for n in walk(g["body"]):
+        pat = init = None
+        if n["k"] == "Local" and n.get("init") is not None:
+            pat, init = n["pat"], n["init"]
+        elif n["k"] == "LetCond":
+            pat, init = n["pat"], n["e"]
+        if pat is not None:
+            isrc = sh.nsrc(GB, init)
+            if pat.get("k") in ("PTuple", "Tuple") and ".enumerate()" in isrc and pat["elems"] and pat["elems"][0].get("k") == "Ident":
+                pos_names.add(pat["elems"][0]["name"])
+            if pat.get("k") == "PTupleStruct" and last(pat["p"]) == "Some" and ("DecoratorKind::Tag" in isrc or isrc in tag_locals):
+                tag_names |= {x["name"] for x in walk(pat) if x.get("k") == "Ident"}
+        if n["k"] == "MethodCall" and n["args"] and n["args"][0].get("k") == "Closure" and ".enumerate()" in sh.nsrc(GB, n["recv"]):
+            ins = n["args"][0].get("inputs", [])
+            if ins and ins[0].get("k") in ("PTuple", "Tuple") and ins[0]["elems"] and ins[0]["elems"][0].get("k") == "Ident":
+                pos_names.add(ins[0]["elems"][0]["name"])
+        if n["k"] == "Match" and ("DecoratorKind::Tag" in sh.nsrc(GB, n["e"]) or sh.nsrc(GB, n["e"]) in tag_locals):
+            for a in n["arms"]:
+                for alt in pat_alts(a["pat"]):
+                    if alt.get("k") == "PTupleStruct" and last(alt["p"]) == "Some":
+                        tag_names |= {x["name"] for x in walk(alt) if x.get("k") == "Ident"}
+    firsts = set()
+    for n in walk(g["body"]):
+        if n["k"] == "Tuple" and len(n.get("es", [])) == 2:
+            e0 = n["es"][0]
+            while e0.get("k") in ("Unary", "Paren"):
+                e0 = e0["e"]
+            if e0.get("k") == "Path":
+                firsts.add(e0["p"])
+        if n["k"] == "MethodCall" and n["m"] in ("unwrap_or", "map_or") and n["args"] and n["args"][0].get("k") == "Path" and n["args"][0]["p"] in pos_names and ("DecoratorKind::Tag" in sh.nsrc(GB, n["recv"]) or sh.nsrc(GB, n["recv"]).split(".")[0] in tag_locals):
+            firsts |= {n["args"][0]["p"]} | tag_names | {"<tag-via-unwrap_or>"}
+            tag_names.add("<tag-via-unwrap_or>")
+    ok = bool(pos_names & firsts) and bool(tag_names & firsts)
+    rep.check(bool(ok), "R12-TAG", "get_constr_index_variant#arms", sh.loc(GB, g), "with a tag the index is the tag, otherwise the position (position bindings %s, tag bindings %s, result tuples start with %s)" % (sorted(pos_names), sorted(tag_names), sorted(firsts)))
     # every site that derives an index from @tag also consults the data type's own decorators (record sugar carries @tag on the type)
     n_sites = 0
     for rel in (SCH, GB, GEN):
